@@ -2,7 +2,7 @@
 built from, arm agreement).  The numeric clauses are not decided (see DESIGN.md)."""
 from core import Ctx, callee_tag, closure_sites, base_places, all_ctxs
 from model import Catalogue, self_field_targets, constructed
-from expr import trees, tree, show, operand_tree, facts_at, reach_strict
+from expr import trees, tree, show, operand_tree, facts_at, reach_strict, place_tree
 from r_bracket import walk
 from r_alloc import arg_projection_fields
 
@@ -73,6 +73,26 @@ def pinned_representation(F, R, rule):
     return False
 
 
+def _absent_key_insert(e):
+    """`map.insert(k, v)` on the None arm of `map.get_mut(k)` / `map.get(k)` (or under
+    `!map.contains_key(k)`): the first entry of a key that has none yet, not an overwrite --
+    `if let Some(c) = map.get_mut(k) { *c += v } else { map.insert(k.clone(), v) }`"""
+    from expr import nobb
+    if e.tag != ("BTreeMap", "insert") or not e.term.get("args"):
+        return False
+    recv = nobb(operand_tree(e.ctx, e.term["args"][0]))
+    for f in facts_at(e.ctx, e.bb):
+        x = nobb(f[1]) if isinstance(f[1], tuple) else None
+        if x is None or x[0] != "call" or not x[2] or nobb(x[2][0]) != recv:
+            continue
+        if f[0] == "variant" and x[1][1] in ("get_mut", "get") and \
+                (f[2] == "0" or (isinstance(f[2], tuple) and f[2][0] == "not" and "1" in f[2][1])):
+            return True
+        if f[0] == "truthy" and x[1][1] == "contains_key" and f[2] is False:
+            return True
+    return False
+
+
 def r_code_source(F, R, cat=None):
     """merge_regions builds the code from the arguments' `stats` only; the new container starts
     with empty stats and an empty encoded buffer"""
@@ -110,6 +130,7 @@ def r_code_source(F, R, cat=None):
             overw = [e for e in effs if e.cls == "append" and e.tag in (("BTreeMap", "insert"), ("Extend", "extend"),
                                                                         ("BTreeMap", "extend"), ("BTreeMap", "append"))
                      and any(r in roots for (c, (r, p)) in e.targets or ())]
+            overw = [e for e in overw if not _absent_key_insert(e)]
             sums = [e for e in effs if e.cls == "assign" and any(r in roots and "[]" in p for (c, (r, p)) in e.targets or ())
                     and (trees(e.ctx, e.value)[0] == "bin" and trees(e.ctx, e.value)[1] == "Add")]
             # symbols new to the accumulated table must get an entry: an `entry(..)` that is only
@@ -171,7 +192,19 @@ def r_stats_and_arms(F, R, cat=None):
         item = ("place", b.key, ("arg", 2), ())
         # stats: entry(x.clone()).or_insert(0) += 1 for x over the whole item
         entries = [e for e in effs if e.tag == ("BTreeMap", "entry") and ("stats", ()) in self_field_targets(e, ctx)]
-        ok_stats = bool(entries)
+        # the look-up-first form of the same count: `if let Some(c) = stats.get_mut(x) { *c += 1 } else
+        # { stats.insert(x.clone(), 1) }` -- the lookup is the entry site, the insert on its None arm
+        # gives a new symbol its first count
+        lookups = [e for e in effs if e.tag == ("BTreeMap", "get_mut") and ("stats", ()) in self_field_targets(e, ctx)]
+        first_counts = [e for e in effs if e.tag == ("BTreeMap", "insert") and ("stats", ()) in self_field_targets(e, ctx)
+                        and _absent_key_insert(e)]
+        lookup_form_ok = True
+        if lookups:
+            from expr import nobb as _nobb
+            lookup_form_ok = len(first_counts) == len(lookups) and all(
+                len(e.term["args"]) == 3 and _nobb(operand_tree(e.ctx, e.term["args"][2])) == ("const", "1") for e in first_counts)
+            entries = entries + lookups
+        ok_stats = bool(entries) and lookup_form_ok
         for e in entries:
             keys = set()
             for o in e.argorigins[1]:
@@ -613,6 +646,44 @@ def r_tail(F, R):
                 seen.append("%s %s %d" % (x[3][0][2:], op, c))
                 if (op == "Ne" and c == 0) or (op == "Gt") or (op == "Ge" and c >= 1):
                     ok = True
+            if not ok:
+                # no single branch dominates, but the fact may hold along every path: the arm is
+                # unreachable from the entry, and from every store to the counter, without crossing
+                # an edge that says the counter is non-zero (`if n < 8 { restock; if n < 8 { return } }`
+                # joins two such edges)
+                from expr import edge_facts, reachable_avoiding
+
+                def nonzero(f):
+                    if f[0] not in ("Ne", "Gt", "Ge", "Lt", "Le"):
+                        return False
+                    op, x, y = f[0], f[1], f[2]
+                    if is_counter(y) and not is_counter(x):
+                        op = {"Lt": "Gt", "Le": "Ge", "Gt": "Lt", "Ge": "Le"}.get(op, op)
+                        x, y = y, x
+                    if not is_counter(x) or y[0] != "const" or not str(y[1]).isdigit():
+                        return False
+                    c = int(y[1])
+                    return (op == "Ne" and c == 0) or op == "Gt" or (op == "Ge" and c >= 1)
+                good_edges = set()
+                for s_ in b.live_blocks():
+                    for (tgt_, fs_) in edge_facts(ctx, s_):
+                        if any(nonzero(f_) for f_ in fs_):
+                            good_edges.add((s_, tgt_))
+                kills = {0}
+                for kb in b.live_blocks():
+                    for st_ in b.blocks[kb]["stmts"]:
+                        if st_["k"] == "assign" and st_["place"]["p"]:
+                            tp_ = place_tree(ctx, st_["place"])
+                            if is_counter(tp_):
+                                kills.add(kb)
+                    kt_ = b.term(kb)
+                    if kt_["k"] == "call" and kb != 0 and any(a_.get("k") in ("copy", "move") and b.locals[a_["place"]["l"]]["ty"].get("mut") and
+                                                               any(r_ == ("arg", 1) and not p_ for (r_, p_) in ctx.org.operand(a_))
+                                                               for a_ in kt_["args"]):
+                        kills.add(kb)  # a call handed `&mut self`
+                if good_edges and all(bi not in reachable_avoiding(b, k_, set(), good_edges) or (k_ == bi and k_ != 0) for k_ in kills if k_ != bi or k_ == 0):
+                    ok = True
+                    seen.append("non-zero on every path (edges %s)" % sorted(good_edges)[:4])
             msg = [nd[1] for nd in walk(operand_tree(ctx, t["args"][0])) if nd and nd[0] == "const"] if t["args"] else []
             msg = msg[0].strip('"') if msg else "?"
             msgs[msg] = msgs.get(msg, 0) + 1
@@ -797,6 +868,94 @@ def r_weights(F, R):
                             detail="a stored weight is rewritten in place as %s before the tree is (re)built: the code lengths "
                                    "are optimal for rescaled weights, not for the merged statistics" % show(val)[:80])
     R.info("R-OPTIMAL: %d in-place stores inspected while building the code" % n)
+
+
+def r_restock(F, R):
+    """A code longer than one table level is decoded in several rounds of the decoder's loop: each
+    round looks up 8 bits and, on `Further`, descends and goes round again.  Every round needs the
+    chance to restock the bit window from the input (`self.bytes.next()` while fewer than 8 bits
+    are pending) -- a restock that runs once, in front of the loop, leaves the second round of a
+    9..16-bit code with the bits left over from the first, and the decoder falls into its
+    end-of-input handling in the middle of an item.  Positive evidence: Decoder::next has a loop,
+    and no call that polls the input sits inside it."""
+    from expr import in_loop
+    bodies = [b for b in F.bodies.values() if b.name == "next" and b.trait == "Iterator" and
+              (b.self_adt or "").endswith("decoder::Decoder") and not b.in_tests()]
+    for b in bodies:
+        R.saw(b)
+        ctx = Ctx(b)
+        polls = []
+        for (bi, t) in b.calls():
+            if callee_tag(t.get("callee")) == ("Iterator", "next") and t["args"]:
+                recv = operand_tree(ctx, t["args"][0])
+                if recv[0] == "place" and recv[2] == ("arg", 1) and recv[3][:1] == ("f:bytes",):
+                    polls.append(bi)
+        loops = [bi for bi in b.live_blocks() if in_loop(b, bi)]
+        if not polls:
+            R.undecided_site("R-DESCENT", b.label(), "no poll of the input (`bytes.next()`) found in Decoder::next: where the bit "
+                             "window is restocked is not decided")
+            continue
+        if not loops:
+            R.undecided_site("R-DESCENT", b.label(), "Decoder::next has no loop: how it descends through the table levels is not decided")
+            continue
+        inside = [bi for bi in polls if in_loop(b, bi)]
+        R.check("R-DESCENT", b.label(), bool(inside), construct="the bit window can be restocked in every round of the table walk",
+                where=b.where(), detail="polls of the input at blocks %s, of which inside the loop: %s" % (polls, inside) +
+                ("" if inside else ": the input is polled once, in front of the loop; after descending into a second table level "
+                 "the decoder has only the bits left over from the first round and treats the shortage as the end of the input"))
+
+
+def r_bitcopy(F, R, cat=None):
+    """Bits are appended to the encoded buffer through the encoder, which leaves every bit past the
+    cursor zero -- later appends OR their bits in.  A bulk copy of *bytes* for a range of *bits*
+    (`extend_from_slice(&src[lo / 8 .. (hi + 7) / 8])`) copies, in its last byte, the bits that
+    follow the range in the source; unless the tail is masked afterwards they stay behind the
+    cursor and the next item is merged onto them.  Positive evidence: such a copy into a storage
+    field of the container in a push path, with no masking store (`&=`) to the buffer after it."""
+    from core import all_ctxs
+    from expr import nobb
+    cat = cat or Catalogue(F)
+    n = 0
+    for top in F.methods_of_trait("Push", "push"):
+        if top.self_adt != HC or top.in_tests():
+            continue
+        for ctx in all_ctxs(F, top):
+            b = ctx.body
+            for (bi, t) in b.calls():
+                tag = callee_tag(t.get("callee"))
+                if tag not in (("Vec", "extend_from_slice"), ("Extend", "extend"), ("Vec", "extend")) or len(t["args"]) < 2:
+                    continue
+                recv = nobb(operand_tree(ctx, t["args"][0]))
+                if not (recv[0] == "place" and recv[2] == ("arg", 1) and recv[3][:1] == ("f:inner",) and "v:Ok" in recv[3]):
+                    continue
+                src = nobb(operand_tree(ctx, t["args"][1]))
+                ceil = [nd for nd in walk(src) if nd[0] == "agg" and str(nd[1]).startswith("Range") and len(nd[2]) == 2 and
+                        nd[2][1][0] == "bin" and nd[2][1][1] == "Div" and nd[2][1][3] == ("const", "8") and
+                        nd[2][1][2][0] == "bin" and nd[2][1][2][1] == "Add" and ("const", "7") in nd[2][1][2][2:4]]
+                if not ceil:
+                    continue
+                n += 1
+                R.saw(top)
+                masked = False
+                for (c2) in all_ctxs(F, top):
+                    for xb in c2.body.live_blocks():
+                        for si, st in enumerate(c2.body.blocks[xb]["stmts"]):
+                            if st["k"] == "assign" and any(e["k"] == "deref" for e in st["place"]["p"]) and st["rv"]["k"] in ("binop", "use"):
+                                try:
+                                    v = nobb(trees(c2, c2.org.rvalue(st["rv"], xb, si)))
+                                except Exception:
+                                    continue
+                                if v[0] == "bin" and v[1] == "BitAnd" and (c2 is not ctx or xb == bi or xb in reach_strict(b, bi)):
+                                    masked = True
+                if masked:
+                    R.undecided_site("R-APPEND", top.label(), "whole bytes are copied for a bit range at %s:%s and a masking store follows: "
+                                     "whether it clears exactly the bits past the range is not decided" % (b.file, t["line"]))
+                    continue
+                R.check("R-APPEND", top.label(), False, construct="no bits are stored past the bit cursor",
+                        where="%s:%s" % (b.file, t["line"]),
+                        detail="bytes %s are copied whole for a range of bits: the last byte carries the source's following bits "
+                               "behind the cursor, and nothing masks them; the next appended item is OR-ed onto them" % show(ceil[0])[:80])
+    R.info("R-APPEND: %d whole-byte copies of bit ranges into the encoded buffer inspected" % n)
 
 
 def r_chunk_align(F, R, cat=None):
